@@ -6,7 +6,7 @@ import os
 
 import vlib
 
-KIND_OWNER = {"decision": None, "foreign": "C04", "x32": "C04", "invalid": "C05", "accept": "C07", "panic": "C07"}
+KIND_OWNER = {"decision": None, "foreign": "C04", "x32": "C04", "invalid": "C05", "accept": "C07", "panic": "C07", "determinism": "C13"}
 
 
 def consts(scope, W=1, X32Bit=4, NSys=2, MaxSkip=255, dev="{}"):
